@@ -112,6 +112,7 @@ type frame struct {
 	panic            interface{}
 	phitemps         []value // temporaries for parallel phi assignment
 	callpos          token.Pos
+	cur              ssa.Instruction // instruction being executed (for the modelled runtime.Callers)
 }
 
 func (fr *frame) get(key ssa.Value) value {
@@ -206,6 +207,7 @@ func lookupMethod(i *interpreter, typ types.Type, meth *types.Func) *ssa.Functio
 // record frame.  It returns a continuation value indicating where to
 // read the next instruction from.
 func visitInstr(fr *frame, instr ssa.Instruction) continuation {
+	fr.cur = instr
 	switch instr := instr.(type) {
 	case *ssa.DebugRef:
 		// no-op
